@@ -56,6 +56,10 @@ def analyse_one(path):
             out["error"] = "%s: %s @ %s" % (type(e).__name__, e, traceback.format_exc().strip().splitlines()[-3:])
             continue
         out["lp"] += eng.lp_calls
+        for (rp, blk, si), rec in eng.cast_facts.items():
+            out.setdefault("casts", []).append({"block": blk, "stmt": si, "lo": rec["lo"] if rec["lo"] not in (float("inf"), float("-inf")) else None,
+                                                "hi": rec["hi"] if rec["hi"] not in (float("inf"), float("-inf")) else None,
+                                                "to": rec["to"], "from": rec["from"], "line": rec["line"], "inst": label})
         if not out["loops"]:
             out["loops"] = eng.loops
         else:
